@@ -6984,12 +6984,13 @@ class Device(utils.CompositeEventEmitter):
         identity_address: hci.Address | None,
         keys: PairingKeys,
         sc: bool,
+        authenticated: bool = False,
     ) -> None:
         if identity_address is not None:
             connection.peer_resolvable_address = connection.peer_address
             connection.peer_address = identity_address
         connection.sc = sc
-        connection.authenticated = True
+        connection.authenticated = authenticated
         connection.emit(connection.EVENT_PAIRING, keys)
 
     def on_pairing_failure(self, connection: Connection, reason: int) -> None:
